@@ -44,7 +44,7 @@ def random_ast(rng, depth=0, binary=False, alphabet=None):
                     a = rng.choice(alphabet)
                     items.append(['range', a, min(255, a + rng.randint(0, 12))])
                 elif not binary and rng.random() < 0.25:
-                    items.append(['cc', rng.choice('wdsntr')])
+                    items.append(['cc', rng.choice('wdsntrWDS')])
                 else:
                     items.append(['ch', rng.choice(alphabet)])
             return {'k': 'set', 'inv': rng.random() < 0.4, 'items': items}
@@ -64,3 +64,23 @@ def random_ast(rng, depth=0, binary=False, alphabet=None):
         n = rng.randint(0, 2)
         return {'k': 'range', 'c': random_ast(rng, depth + 1, binary, alphabet), 'n': n, 'm': n + rng.randint(0, 2)}
     return {'k': 'atleast', 'c': random_ast(rng, depth + 1, binary, alphabet), 'n': rng.randint(0, 2)}
+
+
+CLASSES = 'wWdDsSntr'
+
+
+def set_algebra():
+    """every set built from one or two escape classes (positive and negated), plain and inverted, alone and next to a literal member
+    or a range: the unions / complements the compiler has to compute for character classes inside sets"""
+    out = []
+    for inv in (False, True):
+        for a in CLASSES:
+            out.append({'k': 'set', 'inv': inv, 'items': [['cc', a]]})
+            out.append({'k': 'set', 'inv': inv, 'items': [['cc', a], ['ch', 0x5f]]})
+            out.append({'k': 'set', 'inv': inv, 'items': [['range', 0x35, 0x43], ['cc', a]]})
+            for b in CLASSES:
+                if a < b:
+                    out.append({'k': 'set', 'inv': inv, 'items': [['cc', a], ['cc', b]]})
+        for a, b, c in (('W', 'D', 'S'), ('w', 'D', 's'), ('W', 'd', 'n')):
+            out.append({'k': 'set', 'inv': inv, 'items': [['cc', a], ['cc', b], ['cc', c]]})
+    return out
